@@ -187,3 +187,31 @@ def modulo_by_mask_sites(root):
                 ):
                     out.append(n)
     return out
+
+
+def fold_step(loop: ast.For):
+    """a loop whose body is the single statement `acc = OP(acc, E)` / `acc = OP(E, acc)`: (acc, OP, E) else None"""
+    body = [s for s in loop.body if not (isinstance(s, ast.Expr) and isinstance(s.value, ast.Constant))]
+    if len(body) != 1 or not isinstance(body[0], ast.Assign) or len(body[0].targets) != 1 or not isinstance(body[0].targets[0], ast.Name):
+        return None
+    acc = body[0].targets[0].id
+    v = body[0].value
+    if not (isinstance(v, ast.Call) and isinstance(v.func, ast.Name) and len(v.args) == 2 and not v.keywords):
+        return None
+    a0, a1 = v.args
+    if isinstance(a0, ast.Name) and a0.id == acc:
+        return acc, v.func.id, a1
+    if isinstance(a1, ast.Name) and a1.id == acc:
+        return acc, v.func.id, a0
+    return None
+
+
+def loop_components(loop: ast.For):
+    """the texts that denote the two zipped components inside the loop: `for a, b in zip(..)` -> (a, b);
+    `for x in zip(..)` -> (x[0], x[1])"""
+    t = loop.target
+    if isinstance(t, ast.Tuple) and len(t.elts) == 2:
+        return norm(t.elts[0]), norm(t.elts[1])
+    if isinstance(t, ast.Name):
+        return f"{t.id}[0]", f"{t.id}[1]"
+    return None
